@@ -1,5 +1,5 @@
 //! Instrumented component universe: nine types covering the layout space (sizes 0..320, aligns
-//! 1..64, zero-sized, over-aligned zero-sized, heap-owning).  Every instance carries a serial number;
+//! 1..256, zero-sized, over-aligned zero-sized, heap-owning).  Every instance carries a serial number;
 //! `Drop` records `(type index, serial)` in a thread-local ledger.
 #![allow(dead_code)]
 
@@ -171,8 +171,8 @@ impl Clone for C {
     }
 }
 
-// ---- 3: D, size 64 align 64
-#[repr(C, align(64))]
+// ---- 3: D, size 256 align 256 (beyond one byte: alignments are not small numbers)
+#[repr(C, align(256))]
 pub struct D {
     serial: u64,
     pad: [u64; 7],
@@ -184,7 +184,7 @@ impl Comp for D {
         D { serial: s, pad: [s ^ 0x5555; 7] }
     }
     fn serial(&self) -> u64 {
-        if (self as *const D as usize) % 64 != 0 || self.pad.iter().any(|&p| p != self.serial ^ 0x5555) {
+        if (self as *const D as usize) % 256 != 0 || self.pad.iter().any(|&p| p != self.serial ^ 0x5555) {
             CORRUPT
         } else {
             self.serial
@@ -471,6 +471,26 @@ pub fn accessor_disagreement(world: &hecs::World, h: hecs::Entity, t: usize) -> 
                 Err(_) => None,
             },
         ));
+        // a query every entity satisfies (C16: reserved ids included) answers for exactly the existing ones
+        seen.push((
+            "World::query_one::<Option<&T>>",
+            match world.query_one::<Option<&T>>(h) {
+                Ok(mut q) => match q.get() {
+                    Some(o) => Some(o.map(|r| r.serial())),
+                    None => Some(Some(CORRUPT)),
+                },
+                Err(_) => None,
+            },
+        ));
+        if let Ok(e) = er.as_ref() {
+            seen.push((
+                "EntityRef::query::<Option<&T>>",
+                match e.query::<Option<&T>>().get() {
+                    Some(o) => Some(o.map(|r| r.serial())),
+                    None => Some(Some(CORRUPT)),
+                },
+            ));
+        }
         seen.into_iter().find(|(_, v)| *v != base).map(|(name, v)| format!("{}:type{}:{:?}!={:?}", name, t, v, base))
     })
 }
